@@ -369,8 +369,14 @@ class Sedov(ExactSolver):
         pressure = interp(r)
 
 
-        specific_internal_energy = pressure / self.gamm1 / density
-        sound_speed = (self.gamma * pressure / density)**(1./2.)
+        # as in physical(): zero in the evacuated core of a vacuum-type
+        # solution, where density and pressure vanish (0/0 otherwise)
+        filled = density > 0.
+        safe_density = np.where(filled, density, 1.)
+        specific_internal_energy = np.where(
+            filled, pressure / self.gamm1 / safe_density, 0.)
+        sound_speed = np.where(
+            filled, (self.gamma * pressure / safe_density)**(1./2.), 0.)
 
         return ExactSolution([r, density, pressure, specific_internal_energy,
                               velocity, sound_speed],
